@@ -18,6 +18,7 @@ import (
 
 	"go.step.sm/crypto/jose"
 	"go.step.sm/crypto/randutil"
+	"golang.org/x/crypto/ssh"
 
 	"github.com/smallstep/certificates/authority"
 	"github.com/smallstep/certificates/authority/config"
@@ -43,6 +44,9 @@ type env struct {
 	// a certificate of the CA and its key: signs admin (x5c) and renew (x5cInsecure) tokens
 	leaf    *x509.Certificate
 	leafKey crypto.Signer
+	// an SSH host certificate of the CA and its key: signs SSHPOP tokens (provisioner "sshpop")
+	sshCert *ssh.Certificate
+	sshKey  *ecdsa.PrivateKey
 }
 
 const oidcClient = "verif-client"
@@ -74,6 +78,7 @@ func newEnv(hasDB, noChk bool, hooks *ss.Hooks) *env {
 		json.NewEncoder(w).Encode(jose.JSONWebKeySet{Keys: []jose.JSONWebKey{e.oidcKey.Public()}})
 	})
 	e.provs = provisioner.List{
+		&provisioner.SSHPOP{Type: "SSHPOP", Name: "sshpop"},
 		&provisioner.OIDC{Type: "OIDC", Name: "oidc", ClientID: oidcClient,
 			ConfigurationEndpoint: e.oidcSrv.URL + "/.well-known/openid-configuration", Admins: []string{oidcAdmin}},
 		&provisioner.JWK{Type: "JWK", Name: "jwk2", Key: &pub2},
@@ -87,6 +92,14 @@ func newEnv(hasDB, noChk bool, hooks *ss.Hooks) *env {
 	}
 	e.leaf = must(e.ca.SignX509(must(e.ca.Token(fixture.TokenOpts{Subject: cn, SANs: []string{cn + ".example.com"}})), csr, provisioner.SignOptions{}))[0]
 	e.leafKey = key
+	// SSH host certificate through the real SSH sign flow (JWK token with step.ssh options)
+	name := "h" + randHex() + ".example.com"
+	e.sshKey = must(ecdsa.GenerateKey(elliptic.P256(), rand.Reader))
+	pub := must(ssh.NewPublicKey(&e.sshKey.PublicKey))
+	stok := must(e.ca.Token(fixture.TokenOpts{Subject: name, Audience: fixture.Audience("/1.0/ssh/sign"), NoSANs: true,
+		Extra: map[string]any{"step": map[string]any{"ssh": map[string]any{"certType": "host", "keyID": name, "principals": []string{name}}}}}))
+	sctx := methodCtx(e.ca.Auth, "sshsign", false)
+	e.sshCert = must(e.ca.Auth.SignSSH(sctx, pub, provisioner.SignSSHOptions{CertType: "host", KeyID: name, Principals: []string{name}}, must(e.ca.Auth.Authorize(sctx, stok))...))
 	return e
 }
 
@@ -105,7 +118,8 @@ func (e *env) chain() []string {
 }
 
 func (e *env) opts(from *fixture.CA) fixture.Opts {
-	o := fixture.Opts{Provisioners: e.provs, From: from}
+	yes := true
+	o := fixture.Opts{Provisioners: e.provs, From: from, SSH: true, JWKClaims: &provisioner.Claims{EnableSSHCA: &yes}}
 	if e.noChk {
 		o.Config = func(c *config.Config) { c.AuthorityConfig.DisableIssuedAtCheck = true }
 	}
@@ -183,6 +197,14 @@ func methodCtx(a *authority.Authority, method string, skip bool) context.Context
 		m = provisioner.RevokeMethod
 	case "signid":
 		m = provisioner.SignIdentityMethod
+	case "sshsign":
+		m = provisioner.SSHSignMethod
+	case "sshrenew":
+		m = provisioner.SSHRenewMethod
+	case "sshrekey":
+		m = provisioner.SSHRekeyMethod
+	case "sshrevoke":
+		m = provisioner.SSHRevokeMethod
 	}
 	ctx = provisioner.NewContextWithMethod(ctx, m)
 	if skip {
